@@ -286,7 +286,7 @@ class CSSStyleSheet(cssutils.stylesheets.StyleSheet):
 
         def unknownrule(expected, seq, token, tokenizer):
             # parse and consume tokens in any case
-            if token[1] in cssutils.css.MarginRule.margins:
+            if self._tokenvalue(token, normalize=True) in cssutils.css.MarginRule.margins:
                 self._log.error(
                     'CSSStylesheet: MarginRule out CSSPageRule.', token, neverraise=True
                 )
